@@ -91,6 +91,9 @@ class Engine:
         self.inv_funcs = {}
         self.trusted_facts = set()
         self.instance_results = []
+        self.ghosts = {}
+        self.ghost_mode = False
+        self.havoc_kinds = {}
         self.inlined = set()
         self.used_contracts = set()
         self.spec_mode = False       # evaluating contract clauses: no obligations, no path splitting on and/or
